@@ -267,3 +267,4 @@ example : (match genMol 10 exMol [.pick 0, .draw 10, .pick 0, .pick 1, .pick 0, 
     | _ => false) = true := by decide +kernel
 
 end GBS
+
